@@ -393,6 +393,22 @@ func driver(args []string) int {
 	if np := tot.Probes["reference_panicked"] + tot.Probes["panic"]; tot.Cases > 0 && np*50 > tot.Cases {
 		fmt.Printf("note: the library panicked in %d of %d generated cases (valid inputs by construction); those cases are compared on panic-ness only, so this run says little about them\n", np, tot.Cases)
 	}
+	if inv := loadInventory(f.inv); inv != nil && len(tot.APICovered) > 0 {
+		covered := map[string]bool{}
+		for _, a := range tot.APICovered {
+			covered[a] = true
+		}
+		var missing []string
+		for _, e := range inv.Exported {
+			short := strings.TrimPrefix(e, "github.com/trajectoryjp/spatial_id_go/v4/")
+			if !strings.HasPrefix(short, "examples/") && !covered[short] {
+				missing = append(missing, short)
+			}
+		}
+		if len(missing) > 0 {
+			fmt.Printf("note: %d exported function(s)/method(s) of this tree are not exercised by the catalogue (new API?): %s\n", len(missing), strings.Join(head(missing, 8), ", "))
+		}
+	}
 	if simrt.RestoreDisabled != "" {
 		fmt.Println("note: package state is not reset between cases:", simrt.RestoreDisabled)
 	}
